@@ -1532,8 +1532,34 @@ fn mode_fileops(out: &mut Out) {
 		});
 		marker(&base, "END", i);
 		let files1 = list_seed_files(&dir);
+		// the directory as the call left it, backups included, opened through the lifecycle API
+		// (WalletSeed::from_file) with each password of the case: it opens exactly with the password
+		// the file wallet.seed itself is sealed under (independent PBKDF2 + ChaCha20-Poly1305
+		// decryption of that one file), and then as the seed sealed there — never as a backup's
+		let cur = std::fs::read(format!("{}/wallet.seed", dir)).unwrap_or_default();
+		let mut open_fails: Vec<String> = vec![];
+		let wrong_old = format!("{}-wrong", old);
+		for (pn, pw) in [("old", old), ("new", new), ("other", PW_OTHER), ("old-wrong", wrong_old.as_str())].iter() {
+			let expect = indep_decrypt(&cur, pw);
+			let got = guarded(|| {
+				let lc = inst.lc_provider().unwrap();
+				lc.get_mnemonic(None, ZeroingString::from(*pw))
+			});
+			match (expect, got) {
+				(_, Err(_)) => open_fails.push(format!("opening the directory with the {} password panicked", pn)),
+				(None, Ok(Ok(_))) => open_fails.push(format!(
+					"after {}: the {} password does not open wallet.seed, yet the wallet opened with it (a seed from elsewhere in the directory)", op, pn)),
+				(Some(sd), Ok(Ok(p))) => {
+					if mnemonic::from_entropy(&sd).map(|m| m != *p).unwrap_or(true) {
+						open_fails.push(format!("after {}: the {} password opened a seed other than the one in wallet.seed", op, pn));
+					}
+				}
+				(Some(_), Ok(Err(e))) => open_fails.push(format!("after {}: the {} password opens wallet.seed but the wallet refused it: {}", op, pn, e)),
+				(None, Ok(Err(_))) => {}
+			}
+		}
 		out.line(&json!({"case": c, "id": i, "dir": dir, "res": res_code(&r), "res_text": res_text(&r),
-			"files0": files0, "files1": files1,
+			"files0": files0, "files1": files1, "open_fails": open_fails,
 			"orig_phrase": phrase_of(&seeds[0]), "other_phrase": phrase_of(&seeds[1]),
 			"recover_phrase": phrase_of(&seeds[2]), "pw_other": PW_OTHER}));
 		let _ = std::fs::remove_dir_all(&top);
